@@ -52,6 +52,10 @@ FILL = {
     "aarch64": ["fadd v0.2d, v1.2d, v2.2d", "add x0, x0, #8", "ldr q1, [x2, x3]", "mov x1, x2", "mov x3, #111",
                 "cmp x1, x2", "bne .L1", "str d0, [x4, 8]!", "fmul d0, d0, d4", "mov x5, #222", "ldr d3, [x6]"],
 }
+# integer-only x86 code with hexadecimal literals and names like 'idx2': nothing in it that the ISA guess from register names
+# (used when no --arch is given) recognises as x86; with --arch the file must be treated as x86 all the same
+FILL_INT = ["addq $8, %rax", "movl $0x6f, %edx", "andl $0x1f, %ecx", "cmpq %rbx, %rax", "jne .L1", "movl %ebx, %eax", "incq %rcx",
+            "movq 0x10(%rsp), %r9", "leaq (%rax,%rcx,8), %r8", "shlq $0x4, %rdx", "movl $111, %ecx", "movq idx2(%rip), %rsi", "movq $222, %rbx"]
 DIRECTIVES = [".p2align 4", ".text", ".align 16", ".globl main", ".cfi_startproc", ".loc 1 23 0", ".p2align 4,,10"]
 
 
@@ -134,12 +138,12 @@ def decoy(isa, r):
     return k, [mov] + lines + tail
 
 
-def part(isa, r, n, stats):
+def part(isa, r, n, stats, fill=None):
     out = []
     for _ in range(n):
         x = r.random()
         if x < 0.45:
-            out.append(r.choice(FILL[isa]))
+            out.append(r.choice(fill or FILL[isa]))
         elif x < 0.55:
             out.append(".L%d:" % r.randrange(1000))
             stats["nonins"] += 1
@@ -161,10 +165,11 @@ def part(isa, r, n, stats):
 def gen_file(isa, r):
     style = r.choice(STYLES[isa])
     st = {"nonins": 0, "decoys": []}
-    pro = part(isa, r, r.randrange(0, 9), st)
+    fill = FILL_INT if isa == "x86" and r.random() < 0.3 else None
+    pro = part(isa, r, r.randrange(0, 9), st, fill)
     body_stats = {"nonins": 0, "decoys": []}
-    body = part(isa, r, r.randrange(0, 14), body_stats)
-    epi = part(isa, r, r.randrange(0, 9), st)
+    body = part(isa, r, r.randrange(0, 14), body_stats, fill)
+    epi = part(isa, r, r.randrange(0, 9), st, fill)
     if style == "none":
         lines = pro + body + epi
         exp = [i + 1 for i, l in enumerate(lines) if l.strip()]
@@ -175,7 +180,7 @@ def gen_file(isa, r):
         off = len(pro) + len(s)
         exp = [off + i + 1 for i, l in enumerate(body) if l.strip()]
     return {
-        "isa": isa, "style": style, "text": "\n".join(lines) + r.choice(["\n", ""]), "expected": exp,
+        "isa": isa, "style": style, "integer_only": fill is not None, "text": "\n".join(lines) + r.choice(["\n", ""]), "expected": exp,
         "decoys": sorted(set(st["decoys"] + body_stats["decoys"])), "body_decoys": sorted(set(body_stats["decoys"])),
         "body_nonins": body_stats["nonins"], "n_body": len(exp),
         "layout": [len(pro), len(s), len(body), len(e), len(epi)],
@@ -432,6 +437,8 @@ def check_select(c, R, workdir=None, e2e=False):
         finally:
             os.unlink(path)
         R.count("monitor:inspect_selection")
+        if c.get("integer_only") and c["style"] != "none":
+            R.count("inspect_marked_integer_only_x86")
         if snap["lines"] != c["expected"]:
             R.violation("inspect/%s/%s" % ("marked" if c["style"] != "none" else "unmarked", classify_selection(snap["lines"], c["expected"], c["layout"])),
                         "inspect() analysed lines %s, lines strictly between the markers %s" % (snap["lines"][:40], c["expected"][:40]), c)
@@ -679,6 +686,7 @@ def floors(tier):
         "monitor:get_line_range": 240 if q else 3000,
         "monitor:inspect_selection": 20 if q else 300,
         "monitor:inspect_lines": 10 if q else 150,
+        "inspect_marked_integer_only_x86": 5 if q else 60,
         "monitor:inspect_variants": 80 if q else 1000,
         "monitor:full_analysis": 80 if q else 1000,
         "monitor:get_critical_path": 80 if q else 1000,
